@@ -258,6 +258,18 @@ def run(run):
                 call("array_contract_path(explicit edge path as list, canonicalize=False)", kind, N,
                      lambda: ct.array_contract_path(inputs, output, size, optimize=list(ixs), cache=False, canonicalize=False),
                      inputs, output, size, "path" if connected_no_scalars(inputs) else "path-valid")
+                # the same with INTEGER index labels handed over as they are (an edge path is then a sequence of ints)
+                imap = {ix_: 11 + k_ for k_, ix_ in enumerate(sorted(size))}
+                iinp = tuple(tuple(imap[x] for x in t) for t in inputs)
+                iout = tuple(imap[x] for x in output)
+                isz = {imap[x]: v for x, v in size.items()}
+                iep = [imap[x] for x in ixs]
+                call("array_contract_path(explicit edge path, integer labels, canonicalize=False)", kind, N,
+                     lambda: ct.array_contract_path(iinp, iout, isz, optimize=list(iep), cache=False, canonicalize=False),
+                     iinp, iout, isz, "path" if connected_no_scalars(inputs) else "path-valid")
+                call("array_contract_path(explicit edge path, integer labels)", kind, N,
+                     lambda: ct.array_contract_path(iinp, iout, isz, optimize=tuple(iep), cache=False),
+                     iinp, iout, isz, "path" if connected_no_scalars(inputs) else "path-valid")
                 call("array_contract_path(explicit edge path as list)", kind, N,
                      lambda: ct.array_contract_path(inputs, output, size, optimize=list(ixs), cache=False), inputs, output, size,
                      "path" if connected_no_scalars(inputs) else "path-valid")
